@@ -116,6 +116,11 @@ def generate(rng, tier, index):
     if rng.random() < 0.15:
         cons['checkTemperature'] = False
     pair = rng.choice(['ctor_setter', 'ctor_setter', 'array_func']) if sched['kind'] != 'const' else 'ctor_setter'
+    if not real and rng.random() < 0.2:
+        # another model is configured (with another temperature specification) after this one and before this one is solved
+        sib = W.gen_stub_config(rng, nel=len(cfg['elements']), allow_shapes=False)
+        sib['T'] = rng.choice([{'kind': 'const', 'T': T0 + rng.choice([-40, 25])}, {'kind': 'array', 'times': [0.0, 1e-5], 'temps': [T0 - 30, T0 + 30]}])
+        cfg['sibling'] = sib
     return {'cfg': cfg, 'ops': ops, 'cap': cap, 'pair': pair}
 
 
